@@ -84,8 +84,11 @@ def _sign_s_site(mod, fn):
         if n.ast is None or n.ast.value is None:
             continue
         v = n.ast.value
-        if isinstance(v, ast.Call) and call_name(v) == "Signature" and len(v.args) == 2:
-            sites.append((n, v.args[1]))
+        if isinstance(v, ast.Call) and call_name(v) == "Signature":
+            kw = {k.arg: k.value for k in v.keywords}
+            s_arg = v.args[1] if len(v.args) == 2 else kw.get("s")
+            if s_arg is not None:
+                sites.append((n, s_arg))
     return sites
 
 
